@@ -51,29 +51,30 @@ var driverPkg = map[string]string{
 
 // Stage is one child-process run of a driver.
 type Stage struct {
-	Name         string
-	Dir          string   // module directory relative to the repository ("" = root, "cmd/application")
-	Pkg          string   // package pattern relative to Dir, e.g. "./pkg/station/lib"
-	Run          string   // -test.run regexp
-	Race         bool     // build with -race; race reports are harvested from the log
-	Drivers      []string // driver directories to overlay (the kit is always added)
-	Exports      []string // export shims to inject: names under drivers/export/ (e.g. "lib", "dtls")
-	Files        []string // extra file-name substrings to select in the driver dirs (default: the property id)
-	Env          []string
-	Netns        bool // run inside `unshare -n` with lo up
-	TimeoutQ     time.Duration
-	TimeoutT     time.Duration
-	ThoroughOnly bool
-	QuickOnly    bool
-	HangIsViol   bool // a test-binary timeout is a violation of this property (else: infrastructure error)
-	CrashIsViol  bool // a panic in the child is a violation (default true via props init)
-	NoCrashViol  bool
-	RaceFilter   func(r RaceReport) bool   // which race reports are attributed to the property (nil = all)
-	RaceSig      func(r RaceReport) string // optional canonical signature for a family of reports ("" = default pair key)
-	Repeat       int                       // run the binary this many times (quick), RepeatT (thorough)
-	RepeatT      int
-	Parallel     int // -test.parallel
-	Args         []string
+	Name              string
+	Dir               string   // module directory relative to the repository ("" = root, "cmd/application")
+	Pkg               string   // package pattern relative to Dir, e.g. "./pkg/station/lib"
+	Run               string   // -test.run regexp
+	Race              bool     // build with -race; race reports are harvested from the log
+	Drivers           []string // driver directories to overlay (the kit is always added)
+	Exports           []string // export shims to inject: names under drivers/export/ (e.g. "lib", "dtls")
+	Files             []string // extra file-name substrings to select in the driver dirs (default: the property id)
+	Env               []string
+	Netns             bool // run inside `unshare -n` with lo up
+	TimeoutQ          time.Duration
+	TimeoutT          time.Duration
+	ThoroughOnly      bool
+	QuickOnly         bool
+	HangIsViol        bool // a test-binary timeout is a violation of this property (else: infrastructure error)
+	CrashIsViol       bool // a panic in the child is a violation (default true via props init)
+	NoCrashViol       bool
+	SignalDeathIsViol []string                  // the child dying of one of these signals (e.g. "hangup") is a violation: the stage delivers them to the program under test
+	RaceFilter        func(r RaceReport) bool   // which race reports are attributed to the property (nil = all)
+	RaceSig           func(r RaceReport) string // optional canonical signature for a family of reports ("" = default pair key)
+	Repeat            int                       // run the binary this many times (quick), RepeatT (thorough)
+	RepeatT           int
+	Parallel          int // -test.parallel
+	Args              []string
 }
 
 // Prop is the registration of a property check.
@@ -336,6 +337,10 @@ func (rc *RunCtx) runBinary(st *Stage, bin string, rep int, info map[string]inte
 		} else {
 			rc.Violations = append(rc.Violations, Violation{Sig: "crash:" + st.Name + ":" + crashSite(text), Msg: "the process under monitoring crashed: " + firstPanicLine(text), Stage: st.Name, Mon: "process-survival", Detail: last, Extra: p})
 		}
+	case signalDeath(err, st.SignalDeathIsViol) != "":
+		p := saveDump("crash")
+		sg := signalDeath(err, st.SignalDeathIsViol)
+		rc.Violations = append(rc.Violations, Violation{Sig: "crash:" + st.Name + ":killed-by-signal:" + sg, Msg: "the program under monitoring was killed by the signal '" + sg + "' that the stage delivers to it (its handler was not installed at that moment)", Stage: st.Name, Mon: "process-survival", Detail: last, Extra: p})
 	case st.Race && nraces > 0 && (!strings.Contains(text, "--- FAIL") || strings.Contains(text, "race detected during execution of test")):
 		// exit code 66 from the race runtime, or the testing package failing the test because of the
 		// race reports: already harvested above
@@ -343,6 +348,19 @@ func (rc *RunCtx) runBinary(st *Stage, bin string, rep int, info map[string]inte
 		p := saveDump("fail")
 		rc.Errors = append(rc.Errors, fmt.Sprintf("stage %s: driver failed: %v (see %s)\n%s", st.Name, err, p, tail(text, 1500)))
 	}
+}
+
+// signalDeath returns the signal name if the child was terminated by one of the listed signals ("signal: hangup").
+func signalDeath(err error, sigs []string) string {
+	if err == nil {
+		return ""
+	}
+	for _, sg := range sigs {
+		if strings.Contains(err.Error(), "signal: "+sg) {
+			return sg
+		}
+	}
+	return ""
 }
 
 func tail(s string, n int) string {
